@@ -11,6 +11,7 @@ the real apply_simp and rendered with the real writer; the oracle demands
 * introduced declarations declare symbols not yet declared and are placed
   before their first use.
 """
+import os
 import signal
 
 from vlib import budget, common, gen_smt, refmodel, refreader, shapes, \
@@ -501,6 +502,14 @@ def shard(args):
                                                   'Int']],
                 [['rf2', ['+', 'ra', '1']], ['rf1', ['-', 'rb', '1']]]
             ])
+        if r.random() < 0.3 or os.environ.get('VERIF_UNCOMMON') == '1':
+            # less common commands and term forms (push/pop, define-sort,
+            # recursive definitions, parametric datatypes, match, patterns,
+            # named terms, sets, tuples, ...)
+            for group in r.sample(workload.UNCOMMON, r.randint(1, 2)):
+                at = r.randint(1, len(nested))
+                nested[at:at] = refreader.read('\n'.join(group))
+            res.count('scripts_with_less_common_commands')
         pre = tricky_prefix(r)
         k = next((j for j, c in enumerate(nested)
                   if c[0] not in ('set-logic', 'set-info', 'set-option')),
